@@ -321,6 +321,23 @@ class Case:
     def ev_tick(self):
         self.pool._maintain_pool()
 
+    def ev_tick_close(self, k):
+        """a supervision pass during which close() is called from the start-up hook of the
+        (k+1)-th worker the pass starts"""
+        p = self.pool
+        started = [0]
+        prev = p.on_process_up
+
+        def hook(proc):
+            started[0] += 1
+            if started[0] == k + 1:
+                p.close()
+        p.on_process_up = hook
+        try:
+            p._maintain_pool()
+        finally:
+            p.on_process_up = prev
+
     def ev_scan(self, lingers=False):
         p = self.pool
         if p._timeout_handler is None:
